@@ -59,6 +59,9 @@ def read_model_parameters(
             soil.profile.loc[soil.profile.index[-1], "dz"] += 0.1
             soil.fill_nan()
 
+    # the top-soil depth cannot be thinner than the (possibly thickened) first compartment
+    soil.z_top = max(soil.z_top, float(soil.profile.dz.iloc[0]))
+
     # TODO: Why all these commented lines? The model does not allow rotations now?
     ###########
     # crop
